@@ -78,7 +78,7 @@ fn main() {
         "strip" => strip::strip_file(&args[2], &args[3]),
         "compile" => tools::compile_cmd(&args[2..]),
         _ => {
-            eprintln!("usage: sim check <C04|C10|C14> [--tier quick|thorough] | replay <file> | selftest | strip <in.ts> <out.js> | compile ...");
+            println!("usage: sim check <C04|C10|C14> [--tier quick|thorough] | replay <file> | selftest | strip <in.ts> <out.js> | compile ...");
             2
         }
     };
